@@ -12,7 +12,7 @@ CHECKS = {
     'C12': dict(
         level='exploration',
         batches=[dict(scenario='c12pool', flavour='P', quick=40000, thorough=1500000),
-                 dict(scenario='c12pool', flavour='T', quick=6000, thorough=200000),
+                 dict(scenario='c12pool', flavour='T', quick=3000, thorough=200000),
                  dict(scenario='c12pool', flavour='A', quick=6000, thorough=200000)],
         rule='seeded client programs over {add,tryAdd,joinJobs,resize,free} x pool configs x schedules; distinct = distinct (plan signature, schedule signature); non-trivial = at least 2 accepted jobs',
         real=['lib/common/pool.c (real code, real worker threads parked/released by simsched)'], stub=STUB_COMMON,
@@ -159,6 +159,10 @@ CHECKS = {
     ),
 }
 
+# a thorough batch stops launching new work after this many seconds (evidence then says truncated=true and how many runs were done):
+# the thorough tier is a budgeted search, not an enumeration, and must end in bounded time on any machine
+THOROUGH_BATCH_WALL = int(os.environ.get('VERIF_THOROUGH_BATCH_WALL', '1500'))
+
 def default_root(tier):
     s = os.environ.get('VERIF_SEED')
     if s:
@@ -173,7 +177,7 @@ def run_check(prop, tier, extra_hook=None):
         runs = b[tier]
         if runs <= 0: continue
         if b.get('corpus'): vlib.ensure_corpus(root & 0xffff, b['corpus'][tier])
-        r = vlib.run_batch(b['flavour'], b['scenario'], root, runs, tier, workers=b.get('workers'), time_cap=b.get('time_cap_' + tier), cpu_cap=b.get('cpu_cap', 120))
+        r = vlib.run_batch(b['flavour'], b['scenario'], root, runs, tier, workers=b.get('workers'), time_cap=b.get('time_cap_' + tier, THOROUGH_BATCH_WALL if tier == 'thorough' else None), cpu_cap=b.get('cpu_cap', 120))
         batches_ev.append(dict(scenario=b['scenario'], flavour=b['flavour'], runs=r.evaluations, distinct_nontrivial=r.nontrivial, wall_s=round(r.wall, 1),
                                distinct_schedules=len(r.sched_sigs), failures=len(r.failures), truncated=r.truncated))
         log('[%s] batch %s/%s: %d runs, %d distinct non-trivial, %d failures, %.1fs' % (prop, b['scenario'], b['flavour'], r.evaluations, r.nontrivial, len(r.failures), r.wall))
